@@ -144,23 +144,43 @@ example : argsGet [[97], [98, 99]] (List.replicate 12 0xAA) 0 8 = .ub .outOfBoun
 
 theorem nsec_cast : (Gen.WasiPath.nsecPerSec : Int) = 1000000000 := rfl
 
+/-- **clock_id_ignores_precision.**  The host clock that `clock_time_get` reads is a function of the WASI
+    clock id ONLY: the regenerated scan of the whole function body finds no branch on `precision` (or any
+    other use of it).  A "use a cheaper clock for coarse precision" edit regenerates a non-trivial
+    `clockOverride` and breaks this obligation — such a clock lags the precise one, and a history of calls
+    mixing precisions would see the monotonic clock go backwards. -/
+theorem clock_id_ignores_precision (id p q : Nat) :
+    Gen.WasiPath.clockOverride id p = none ∧ clockNative id p = clockNative id q ∧
+    clockNative id p = (Gen.WasiPath.clockTable.find? (fun r => r.1 == id)).map (·.2) := by
+  refine ⟨rfl, rfl, ?_⟩
+  unfold clockNative
+  cases Gen.WasiPath.clockTable.find? (fun r => r.1 == id) with
+  | none => rfl
+  | some r => rfl
+
+/-- clock_res_get maps the clock ids exactly as clock_time_get does -/
+theorem clock_res_table_agrees :
+    Gen.WasiPath.clockResTable = Gen.WasiPath.clockTable ∧
+    Gen.WasiPath.clockResDefaultErrno = Gen.WasiPath.clockDefaultErrno := by decide
+
 /-- **clock_ns.**  For the four clock ids of the table: success and the eight result bytes are the
     little-endian value `sec·10⁹ + nsec` of that host clock — for every host time whose nanosecond
     count fits an `I64` (no signed overflow before year 2262); a failing host call gives its
-    translated errno; every other clock id gives EINVAL and writes nothing. -/
-theorem clock_ns (host : HostClock) (id : Nat) (mem : Mem) (ptr : Nat) (hp : ptr + 8 ≤ mem.length) :
+    translated errno; every other clock id gives EINVAL and writes nothing.  All of this for EVERY value of
+    the `precision` argument. -/
+theorem clock_ns (host : HostClock) (id precision : Nat) (mem : Mem) (ptr : Nat) (hp : ptr + 8 ≤ mem.length) :
     (∀ name sec nsec, Gen.WasiPath.clockTable.find? (fun r => r.1 == id) = some (id, name) →
       host name = .inr (sec, nsec) → 0 ≤ sec → 0 ≤ nsec → nsec < 1000000000 →
       sec * 1000000000 + nsec ≤ 9223372036854775807 →
-      clockTimeGet host id mem ptr = .val (0, put mem ptr (leBytes 8 (sec * 1000000000 + nsec).toNat))) ∧
+      clockTimeGet host id precision mem ptr = .val (0, put mem ptr (leBytes 8 (sec * 1000000000 + nsec).toNat))) ∧
     (∀ name e, Gen.WasiPath.clockTable.find? (fun r => r.1 == id) = some (id, name) → host name = .inl e →
-      clockTimeGet host id mem ptr = .val (wasiErrno e, mem)) ∧
-    (4 ≤ id → clockTimeGet host id mem ptr = .val (28, mem)) := by
+      clockTimeGet host id precision mem ptr = .val (wasiErrno e, mem)) ∧
+    (4 ≤ id → clockTimeGet host id precision mem ptr = .val (28, mem)) := by
   refine ⟨?_, ?_, ?_⟩
   · intro name sec nsec hfind hh h0 hn0 hn1 hfit
     unfold clockTimeGet
-    rw [hfind]
-    simp only [hh, convertTimespec, nsec_cast]
+    rw [(clock_id_ignores_precision id precision 0).2.2, hfind]
+    simp only [Option.map_some, hh, convertTimespec, nsec_cast]
     have hprod : 0 ≤ sec * 1000000000 := Int.mul_nonneg h0 (by decide)
     have c1 : ¬ (sec * 1000000000 < -9223372036854775808 ∨ 9223372036854775807 < sec * 1000000000) := by
       omega
@@ -174,8 +194,8 @@ theorem clock_ns (host : HostClock) (id : Nat) (mem : Mem) (ptr : Nat) (hp : ptr
     rfl
   · intro name e hfind hh
     unfold clockTimeGet
-    rw [hfind]
-    simp only [hh]
+    rw [(clock_id_ignores_precision id precision 0).2.2, hfind]
+    simp only [Option.map_some, hh]
   · intro h4
     unfold clockTimeGet
     have : Gen.WasiPath.clockTable.find? (fun r => r.1 == id) = none := by
@@ -185,7 +205,7 @@ theorem clock_ns (host : HostClock) (id : Nat) (mem : Mem) (ptr : Nat) (hp : ptr
       have n2 : (2 == id) = false := by simp; omega
       have n3 : (3 == id) = false := by simp; omega
       simp [n0, n1, n2, n3]
-    rw [this]
+    rw [(clock_id_ignores_precision id precision 0).2.2, this]
     rfl
 
 /-- the clock-id table: 0 realtime, 1 monotonic, 2 process CPU time, 3 thread CPU time -/
@@ -217,6 +237,34 @@ theorem clock_monotonic_partial (s1 n1 s2 n2 : Int) (r1 r2 : Int)
   rcases hle with h | ⟨h, h'⟩
   · omega
   · subst h; omega
+
+/-- **clock_history_monotone_partial.**  Two calls on the same clock id with ANY two precision values,
+    the second seeing a host time of that clock not earlier than the first: the second reported value is
+    not smaller.  (Host clock non-decreasing is assumed; by induction this covers every history and every
+    mix of precisions, since the clock read does not depend on the precision.) -/
+theorem clock_history_monotone_partial (host1 host2 : HostClock) (id p1 p2 : Nat) (mem1 mem2 : Mem) (ptr1 ptr2 : Nat)
+    (name : String) (s1 n1 s2 n2 : Int) (m1 m2 : Mem)
+    (hname : clockNative id 0 = some name)
+    (h1 : host1 name = .inr (s1, n1)) (h2 : host2 name = .inr (s2, n2))
+    (hn1 : 0 ≤ n1 ∧ n1 < 1000000000) (hn2 : 0 ≤ n2 ∧ n2 < 1000000000)
+    (hle : s1 < s2 ∨ (s1 = s2 ∧ n1 ≤ n2))
+    (r1 : clockTimeGet host1 id p1 mem1 ptr1 = .val (0, m1)) (r2 : clockTimeGet host2 id p2 mem2 ptr2 = .val (0, m2)) :
+    ∃ v1 v2 : Int, convertTimespec s1 n1 = .val v1 ∧ convertTimespec s2 n2 = .val v2 ∧ v1 ≤ v2 := by
+  have e1 : clockNative id p1 = some name := by rw [(clock_id_ignores_precision id p1 0).2.1]; exact hname
+  have e2 : clockNative id p2 = some name := by rw [(clock_id_ignores_precision id p2 0).2.1]; exact hname
+  unfold clockTimeGet at r1 r2
+  simp only [e1, h1] at r1
+  simp only [e2, h2] at r2
+  cases hc1 : convertTimespec s1 n1 with
+  | val v1 =>
+    cases hc2 : convertTimespec s2 n2 with
+    | val v2 => exact ⟨v1, v2, rfl, rfl, clock_monotonic_partial s1 n1 s2 n2 v1 v2 hc1 hc2 hn1 hn2 hle⟩
+    | trap t => rw [hc2] at r2; cases r2
+    | ub k => rw [hc2] at r2; cases r2
+    | oof => rw [hc2] at r2; cases r2
+  | trap t => rw [hc1] at r1; cases r1
+  | ub k => rw [hc1] at r1; cases r1
+  | oof => rw [hc1] at r1; cases r1
 
 /-- beyond the representable range the conversion is a signed overflow (model fact; year 2262) -/
 example : convertTimespec 9223372037 0 = .ub .signedOverflow := by decide
